@@ -24,6 +24,7 @@
     the end-to-end check that compares findings[].id with the issue key.
 
     Refuted on the code as written (genuine, listed in findings/C06.json):
+      C06_results_not_consulted_refuted (kf_results_not_consulted:<codemod>)    three SAST transformers never look at the results
       C06_fuzzy_enclosing_refuted (kf_fuzzy_enclosing_call_selected:<codemod>)  the fuzzy override also selects every call
                                                            that encloses the reported call on the same line
       C06_same_line_refuted   (kf_same_line_sites)        findings are attached by line
@@ -332,3 +333,17 @@ Proof.
   - split; [| vm_compute; reflexivity].
     constructor; [| constructor]. intros n [<- | [<- | []]]; vm_compute; reflexivity.
 Qed.
+
+(** A transformer that never calls filter_by_result / node_is_selected (no-csrf-exempt, django-model-without-dunder-str,
+    break-or-continue-out-of-loop) behaves as the default filter does without detector results: once the file is processed,
+    a node no result reports is selected. *)
+Theorem C06_results_not_consulted_refuted :
+  exists n rs, (forall r l, In r rs -> In l (rlocs r) -> ~ reports T_now (rcls r) (nkind n) (nspan n) l) /\
+    node_is_selected T_now FDefault (Some rs) [] [] n = false /\ node_is_selected T_now FDefault None [] [] n = true.
+Proof.
+  exists x_n2, [x_r1]. split.
+  - intros r l [<- | []] [<- | []] H. apply match_loc_iff in H. vm_compute in H. discriminate.
+  - split; destruct line_filter_rule eqn:E; unfold T_now; rewrite E; vm_compute; reflexivity.
+Qed.
+Print Assumptions C06_results_not_consulted_refuted.
+
